@@ -110,3 +110,26 @@ Require RV.Gen.Sites RV.Model.SiteMap RV.Proofs.SitesLits.
 Theorem C05_literals_reviewed : RV.Model.SiteMap.literals_ok RV.Model.SiteMap.files_C05.
 Proof. apply RV.Proofs.SitesLits.literals_okb_sound. vm_compute. reflexivity. Qed.
 Print Assumptions C05_literals_reviewed.
+
+(* ---- src/tag.rs AS TRANSLATED FROM THE SOURCE on this run: the tag table written in the source (data():
+   wire bytes and display text per tag; is_nested) is the table reflected from the compiled code
+   (Gen/Tables.v), and from_wire — the match on the wire bytes — answers, for EVERY byte string, the tag of
+   the table with those wire bytes and InvalidTag otherwise. The 32-bit sweep of the correspondence run is no
+   longer what this rests on. ---- *)
+Require Import RV.Model.GenSupport RV.Gen.Code RV.Proofs.CodeTag.
+
+Theorem C05_translated_tag_table_is_reflected :
+  forall t, gen_tag_wire_value t = Ok (tag_wire t) /\ gen_tag_as_string t = Ok (tag_display t)
+            /\ gen_tag_is_nested t = Ok (tag_nested t).
+Proof. exact gen_tag_table_model. Qed.
+Print Assumptions C05_translated_tag_table_is_reflected.
+
+Theorem C05_translated_from_wire_is_model :
+  forall bs, gen_tag_from_wire bs = match tag_of_wire bs with Some t => Ok t | None => Err InvalidTag end.
+Proof. exact gen_tag_from_wire_model. Qed.
+Print Assumptions C05_translated_from_wire_is_model.
+
+Theorem C05_translated_from_wire_only_table :
+  forall bs t, gen_tag_from_wire bs = Ok t -> bs = tag_wire t.
+Proof. exact gen_tag_from_wire_only_table. Qed.
+Print Assumptions C05_translated_from_wire_only_table.
